@@ -39,7 +39,7 @@ Section ModelX.
 
   (* ---- numpy's a / b on finite doubles *)
   Definition xdiv (a b : T O) : xval (T O) :=
-    if eqb O b zero then (if ltb O zero a then XPInf else if ltb O a zero then XNInf else XNaN)
+    if eqb O b zero then (if ltb O a zero then XNInf else if ltb O zero a then XPInf else XNaN)
     else XFin (div O a b).
   (* s[s < 0] = 0   (nan < 0 is False) *)
   Definition xclip (x : xval (T O)) : xval (T O) :=
@@ -146,6 +146,17 @@ Section SpecX.
   Definition s_quot_x (r d : T O) : xval (T O) :=
     if eqb O d zero then (if ltb O zero r then XPInf else if ltb O r zero then XNInf else XNaN)
     else XFin (div O r d).
+
+  (* the composition formulas on top of a chi-squared value and a noise normalization *)
+  Definition s_ll_of (chi nn : T O) : T O := opp O (div O (add O chi nn) two).
+  Definition s_llreg_of (chi nn : T O) (iv : inv (T O)) : T O :=
+    opp O (div O (add O (add O chi (s_regularization_term iv)) nn) two).
+  Definition s_evidence_of (chi nn : T O) (iv : inv (T O)) : T O :=
+    if has_reg (objs iv)
+    then opp O (div O (add O (sub O (add O (add O chi (s_regularization_term iv)) (s_logdet_FH iv)) (s_logdet_H iv)) nn) two)
+    else s_ll_of chi nn.
+  Definition s_fom_of (chi nn : T O) (ivo : option (inv (T O))) : T O :=
+    match ivo with Some iv => s_evidence_of chi nn iv | None => s_ll_of chi nn end.
 
   (* r^T M r as a double sum *)
   Definition s_quadratic_form (r : list (T O)) (M : list (list (T O))) : T O :=
